@@ -175,6 +175,50 @@ def replay(scn):
                     what = A.compare(e, act, dtype_any=[exp["dtype"]] + (["f"] if op in ("fillna", "setna") else [])) or None
                 except A.Unprojectable as ex:
                     what = "result not projectable: %s" % ex
+            if what is None and form == 0 and kind in ("i", "s") and off == 0 and op in ("fillna", "setna"):
+                what = _value_range_variants(i, a_abs, a, op, exp)
+                calls += 2
             if what:
                 viol.append(dict(what=what, sig=signature(scn, "kind=%s%s/form=%d" % (kind, ("@%d" % off) if off else "", form)), variant=variant))
     return dict(violations=viol, calls=calls)
+
+
+def _value_range_variants(i, a_abs, a, op, exp):
+    """the same call on data of another magnitude: valid cells that are infinite (fillna), integers beyond 2**24 (setna).
+    Only the cells the specification marks (filled / set to missing) may change; every other cell is kept exactly."""
+    try:
+        if op == "fillna" and a.dtype.kind == "f":
+            a2 = a.copy()
+            flat = a2.values.reshape(-1) if a2.values.flags.c_contiguous else None
+            want = []
+            for k in range(a2.size):
+                ix = np.unravel_index(k, a2.shape)
+                if a2.values[ix] == a2.values[ix]:
+                    a2.values[ix] = np.inf if k % 2 else -np.inf
+                    want.append(a2.values[ix])
+                else:
+                    want.append(5.5)
+            got = a2.fillna(5.5).values.ravel().tolist()
+            if got != [float(x) for x in want]:
+                return "fillna on data with +inf / -inf: expected %s got %s" % (want[:8], got[:8])
+        if op == "setna" and a.dtype.kind == "i":
+            BIG = 20200100        # cells are odd: the sums are odd numbers beyond 2**24, which a 32-bit float cannot hold
+            a2 = a.copy()
+            a2.values[...] += BIG
+            dt = a_abs["dtype"]
+            if i["form"] == "scalar":
+                v = A.cell_enc(i["vals"][0], dt) + BIG
+            elif i["form"] == "list":
+                v = [A.cell_enc(x, dt) + BIG for x in i["vals"]]
+            elif i["form"] == "masklist":
+                m0 = np.array([c == i["vals"][0] for c in a_abs["cells"]], dtype=bool).reshape(a.shape)
+                v = [m0, A.cell_enc(i["vals"][1], dt) + BIG]
+            else:
+                v = np.array([c in i["vals"] for c in a_abs["cells"]], dtype=bool).reshape(a.shape)
+            got = a2.setna(v).values.ravel().tolist()
+            want = [float("nan") if c == -1 else float(A.cell_enc(c, dt) + BIG) for c in exp["cells"]]
+            if len(got) != len(want) or any(not (float(x) == y or (x != x and y != y)) for x, y in zip(got, want)):
+                return "setna on integers around %d: expected %s got %s" % (BIG, want[:8], got[:8])
+    except Exception as e:  # noqa
+        return "value-range variant raised %s: %s" % (type(e).__name__, str(e)[:200])
+    return None
